@@ -20,8 +20,9 @@ SPEC = dict(
     exhaustive={Q: False, T: False},
     jobs=[job(t, 'h_stable', t, cases={Q: 2000, T: 16000}, procs=2, timeout=900) for t in _TYPES] +
          [job(t + '-long', 'h_stable', t + '-long', cases={Q: 40, T: 800}, procs=2, timeout=900) for t in _TYPES],     # mode <type>-long: histories 8 times as long (2400..24000 operations)
-    floors={Q: dict(ops=6000000, address_checks=85000000, iterator_checks=37000000, lookups=30000000, full_sweeps=5000000, swaps=125000, entries_tracked=2700000, block_allocations=110000,
+    # block_allocations depends on the library's items-per-block tuning constant (4 today: ~500000 observed in quick): the floor leaves room for blocks up to ~64 items
+    floors={Q: dict(ops=6000000, address_checks=85000000, iterator_checks=37000000, lookups=30000000, full_sweeps=5000000, swaps=125000, entries_tracked=2700000, block_allocations=22000,
                     free_slot_reuses=1800000, root_changes=170000, population_turns=60000, max_ops_survived=2500, **{'set:op_classes': 95}),
-            T: dict(ops=120000000, address_checks=1800000000, iterator_checks=800000000, lookups=600000000, full_sweeps=100000000, swaps=2600000, entries_tracked=50000000, block_allocations=2200000,
+            T: dict(ops=120000000, address_checks=1800000000, iterator_checks=800000000, lookups=600000000, full_sweeps=100000000, swaps=2600000, entries_tracked=50000000, block_allocations=440000,
                     free_slot_reuses=34000000, root_changes=3400000, population_turns=1100000, max_ops_survived=6000, **{'set:op_classes': 95})},
 )
